@@ -24,9 +24,12 @@ func main() {
 	known := flag.String("known", "/verif/known_findings.jsonl", "known findings file")
 	replay := flag.String("replay", "", "replay one saved case")
 	cpuprof := flag.String("cpuprofile", "", "write a CPU profile")
+	harness := flag.String("harness", "", "directory of the harness module (for the native fuzz targets)")
+	modfile := flag.String("modfile", "", "alternative go.mod for builds started by the worker")
 	freeze := flag.String("freeze-world", "", "write a frozen honest case (for the fuzz targets) and exit")
 	flag.Parse()
 	debug.SetGCPercent(400)
+	mon.HarnessDir, mon.ModFile = *harness, *modfile
 	if *freeze != "" {
 		if err := freezeWorld(*freeze); err != nil {
 			fmt.Println(err)
